@@ -23,12 +23,12 @@ for f in sorted(glob.glob(os.path.join(VERIF, "seeded", "*", "meta.json"))):
     nblind += 1 if sm.get("blind") else 0
     rows.append("| %s | %s | %s | %s | %s | %s |" % (m["seed"], sm.get("what", ""), sm.get("needs", ""), "yes" if m.get("confirmed") else "NO", caught + (" - " + how if how else ""), blind))
 block = ["### 5.5 Seeded changes (written by sub-agents that saw only the property text; confirmed, then run against the checks)", "",
-         "Five rounds (1-3: one change per property; 4 and 5: two per property, `CNNdA`/`CNNeA` in v2 and `CNNdB`/`CNNeB` in the root module; rounds 2-5 were told the",
+         "Six rounds (1-3: one change per property; 4, 5 and 6: two per property, `CNNdA`/`CNNeA`/`CNNfA` in v2 and `CNNdB`/`CNNeB`/`CNNfB` in the root module; round 6 came after the clause audit of 5.7; rounds 2-6 were told the",
          "one-line descriptions of the earlier changes and asked for a different mechanism; round 3 had to change the root module only wherever",
          "the property names both generations). Each change",
          "compiles, passes the repository's own suite, and comes with a demonstration that fails with the change and passes without it",
          "(`seeded/<id>/`: patch.diff, demonstration, notes.md, meta.json with the commands and what every check printed). All %d are confirmed; %d is outside its" % (len(rows), noutside),
-         "property's scope (a root-module change against the v2-only C09), the other %d are caught by the quick tier of their property's check; %d were caught by the checks as they stood when the change arrived, the others only after the" % (len(rows) - noutside, nblind),
+         "property's scope (a root-module change against the v2-only C09), the other %d are caught by the quick tier of their property's check (C17fB, a change to the lazy map written for C17, by C18's); %d were caught by the checks as they stood when the change arrived, the others only after the" % (len(rows) - noutside, nblind),
          "check was strengthened (last column; a check was never loosened). The misses had these causes: a shape, sequence or configuration the generators did not",
          "reach (sibling includes, overlapping requests, filters, deep trees and deep values, encode-while-filling, a failing marshal or response first, a second",
          "request, colliding unrequested key, only-generated output directory, user directory at a generated path, rich default literals, annotations, short",
@@ -36,7 +36,9 @@ block = ["### 5.5 Seeded changes (written by sub-agents that saw only the proper
          "wildcard next to named spec entries, whole-record annotations, 16 KiB texts, parameter-only key variants, extended hashes, namespaces sharing a last segment, GOOS-suffixed type",
          "names, 4 KiB+ queries, host named like the root, concurrent registrations; round 5: a client shared by all calls of a configuration, context path ending with the root,",
          "create-only-only and entity-returning resources, unserialisable entities, large batches, bracket keys, broken tunnelled bodies, reused enum receivers,",
-         "registration while serving, hashes across processes, optional fields with defaults, prefix-named fields, regeneration into a used directory, dependency manifests), once a vacuous condition in a check (C10 key-hash law guarded by a predicate that is true for equal values), three times the driver or harness build (a crash in every shard, a job that cannot drive channel operations, and a harness registry naming generated",
+         "registration while serving, hashes across processes, optional fields with defaults, prefix-named fields, regeneration into a used directory, dependency manifests;",
+         "round 6: a repeated member in a document, batch keys that are equal but encode differently, keys ordered differently by bytes and by UTF-16 units, a custom typeref key with a coarser equality,",
+         "one response object handed to overlapping requests), once a vacuous condition in a check (C10 key-hash law guarded by a predicate that is true for equal values), three times the driver or harness build (a crash in every shard, a job that cannot drive channel operations, and a harness registry naming generated",
          "identifiers the changed generator no longer emits, were reported as inconclusive instead of a verdict), and twice a check that looked in the wrong place",
          "(C03 envelope returned early on a failing call; C08 checked the status of the second probe only).", "",
          "| seed | change | needs, to manifest | confirmed | caught by (quick tier) | caught |", "|---|---|---|---|---|---|"] + rows + [""]
